@@ -6,4 +6,6 @@ for c in "$@"; do
   (cd /verif && ./check $c 2>&1 | grep -v "^  " | cut -c1-230 | tail -5)
 done
 git -C /repo checkout -- . 
+# evidence written while a seeded change was applied is not evidence about the tree: restore the committed files
+git -C /verif checkout -- evidence/ 2>/dev/null
 git -C /repo status --short
